@@ -17,7 +17,7 @@ Universe1 == {
   Ev("x4", "b", 30000, 3, <<Tg("d", "x")>>),
   Ev("p1", "a", 0, 1, <<>>), Ev("p2", "a", 0, 3, <<>>),
   Ev("g1", "a", 20000, 5, <<>>),
-  Ev("k1", "a", 5, 3, <<Tg("e", "r1")>>),
+  Ev("k1", "a", 5, 3, <<Tg("e", "raw:note1qqqsyqcyq5rqwzqf"), Tg("e", "r1")>>),   \* a value that is no event id, then a real reference
   Ev("k2", "a", 5, 2, <<Tg("a", "30000:a:x")>>),
   Ev("k3", "b", 5, 4, <<Tg("e", "r1"), Tg("a", "30000:a:x")>>),
   Ev("k6", "a", 5, 1, <<Tg3("e", "p2"), Tg3("a", "30000:b:x")>>),
